@@ -582,7 +582,10 @@ bool Parser::parse_patch_header(Patch& patch, PatchHeaderInfo& header_info, int 
         // make an attempt to determine what format this is.
 
         if (patch.format == Format::Unknown || patch.format == Format::Unified) {
-            if (last_line_looks_like == Format::Unified && (starts_with(line, "+") || starts_with(line, "-") || starts_with(line, " "))) {
+            // NOTE: an empty line after the range of a patch whose file names are known is an empty line
+            //       of context which has lost its leading space (diff --suppress-blank-empty).
+            const bool is_blank_context = line.empty() && !patch.old_file_path.empty() && !patch.new_file_path.empty();
+            if (last_line_looks_like == Format::Unified && (is_blank_context || starts_with(line, "+") || starts_with(line, "-") || starts_with(line, " "))) {
                 // NOTE: We need to swap back the old and new lines. The old line was parsed as a new
                 //       line above since both context patches and unified use '---' for a path
                 //       header, but mean different things. Implement this in the simplest way (instead
